@@ -1050,3 +1050,539 @@ Proof.
         apply in_app_or in Hin. destruct Hin as [Hin|Hin]; [exact (Ha eq_refl Hin)|exact (IHr Efc Hin)]. }
       rewrite Hn. apply IHr; assumption.
 Qed.
+
+(* --- t_at --- *)
+
+Lemma t_at_notin : forall g z t, ~ In z (t_ids t) -> t_at g z t = (t, []).
+Proof.
+  intros g z. induction t as [i ch IH] using wtree_ind'. intro Hn.
+  rewrite t_at_eq. cbn [t_ids] in Hn.
+  destruct (w_id i =? z) eqn:E; [exfalso; apply Hn; left; lia|].
+  assert (Hn' : ~ In z (flat_map t_ids ch)) by (intro H; apply Hn; right; exact H).
+  assert (Hgo : ta_go g z ch = (ch, [])).
+  { clear Hn E. induction IH as [|c r Hc Hr IHr]; [reflexivity|].
+    cbn [ta_go]. cbn [flat_map] in Hn'.
+    rewrite Hc by (intro H; apply Hn'; apply in_or_app; left; exact H).
+    fold (ta_go g z r).
+    rewrite IHr by (intro H; apply Hn'; apply in_or_app; right; exact H). reflexivity. }
+  rewrite Hgo. reflexivity.
+Qed.
+
+(* with unique ids, t_at acts on the one subtree t_find finds: events ... *)
+Lemma t_at_events : forall g z t s, NoDup (t_ids t) -> t_find z t = Some s ->
+  snd (t_at g z t) = snd (g s).
+Proof.
+  intros g z. induction t as [i ch IH] using wtree_ind'. intros s Hnd Hf.
+  rewrite t_at_eq. rewrite t_find_unf in Hf.
+  destruct (w_id i =? z) eqn:E; [inversion Hf; subst; reflexivity|].
+  apply node_nodup in Hnd. destruct Hnd as [_ Hnd].
+  assert (Hgo : snd (ta_go g z ch) = snd (g s)).
+  { clear E. induction IH as [|c r Hc Hr IHr]; [discriminate|].
+    cbn [tf_go] in Hf. cbn [ta_go]. cbn [flat_map] in Hnd. fold (ta_go g z r).
+    destruct (t_find z c) as [x|] eqn:Efc.
+    - inversion Hf; subst.
+      pose proof (Hc s (NoDup_app_l _ _ Hnd) eq_refl) as Hev.
+      destruct (t_at g z c) as [c' e1].
+      assert (Hr0 : ta_go g z r = (r, [])).
+      { assert (Hzin : In z (t_ids c)).
+        { destruct (in_dec Z.eq_dec z (t_ids c)) as [Hi|Hni]; [exact Hi|].
+          rewrite (t_find_notin z c Hni) in Efc. discriminate. }
+        assert (Hnr : ~ In z (flat_map t_ids r)).
+        { intro Hin. eapply NoDup_app_disj; eassumption. }
+        clear - Hnr. induction r as [|a r IHr]; [reflexivity|].
+        cbn [ta_go]. cbn [flat_map] in Hnr.
+        rewrite t_at_notin by (intro H; apply Hnr; apply in_or_app; left; exact H).
+        fold (ta_go g z r).
+        rewrite IHr by (intro H; apply Hnr; apply in_or_app; right; exact H). reflexivity. }
+      rewrite Hr0. cbn [snd] in *. rewrite app_nil_r. exact Hev.
+    - assert (Hc0 : t_at g z c = (c, [])).
+      { apply t_at_notin. intro Hin.
+        assert (Hsub : exists x, t_find z c = Some x).
+        { clear - Hin. induction c as [j cs IHc] using wtree_ind'.
+          rewrite t_find_unf. destruct (w_id j =? z) eqn:E; [eexists; reflexivity|].
+          cbn [t_ids] in Hin. destruct Hin as [Hin|Hin]; [lia|].
+          induction IHc as [|a r Ha Hr IHr]; [inversion Hin|].
+          cbn [tf_go]. cbn [flat_map] in Hin. apply in_app_or in Hin.
+          destruct (t_find z a) as [x|] eqn:Ea; [eexists; reflexivity|].
+          destruct Hin as [Hin|Hin]; [destruct (Ha Hin) as [x Hx]; discriminate|exact (IHr Hin)]. }
+        destruct Hsub as [x Hx]. rewrite Hx in Efc. discriminate. }
+      rewrite Hc0. pose proof (IHr (NoDup_app_r _ _ Hnd) Hf) as Hev.
+      destruct (ta_go g z r) as [r' e2]. cbn [snd app] in *. exact Hev. }
+  destruct (ta_go g z ch) as [ch' e]. cbn [snd] in *. exact Hgo.
+Qed.
+
+(* ... and agreement: if [g] keeps a tree in agreement with itself outside its own ids *)
+Lemma t_at_agree : forall g z (D : Z -> Prop),
+  (forall s, t_id s = z -> (forall y, In y (t_ids s) -> D y) -> agree D s (fst (g s))) ->
+  forall t, (forall s, subtree s t -> t_id s = z -> forall y, In y (t_ids s) -> D y) ->
+  agree D t (fst (t_at g z t)).
+Proof.
+  intros g z D Hg. induction t as [i ch IH] using wtree_ind'. intro Hd.
+  rewrite t_at_eq. destruct (w_id i =? z) eqn:E.
+  - apply Hg; [unfold t_id; cbn [t_info]; lia|]. apply Hd; [constructor|unfold t_id; cbn [t_info]; lia].
+  - assert (Hgo : Forall2 (agree D) ch (fst (ta_go g z ch))).
+    { assert (Hd' : forall c, In c ch -> forall s, subtree s c -> t_id s = z ->
+                                      forall y, In y (t_ids s) -> D y).
+      { intros c Hc s Hs. apply Hd. eapply sub_kid; [exact Hc|exact Hs]. }
+      clear Hd E. induction IH as [|c r Hc Hr IHr]; [constructor|].
+      cbn [ta_go]. fold (ta_go g z r).
+      pose proof (Hc (Hd' c (or_introl eq_refl))) as Hc1.
+      assert (Hr1 : Forall2 (agree D) r (fst (ta_go g z r))).
+      { apply IHr. intros c0 Hc0. apply Hd'. right. exact Hc0. }
+      destruct (t_at g z c) as [c' e1]. destruct (ta_go g z r) as [r' e2].
+      cbn [fst] in *. constructor; assumption. }
+    destruct (ta_go g z ch) as [ch' e]. cbn [fst] in *.
+    constructor; [reflexivity|reflexivity|exact Hgo].
+Qed.
+
+(* --- focus_lost --- *)
+
+Definition le_go (k : Z) : list wtree -> list fev :=
+  fix go (l : list wtree) : list fev :=
+    match l with
+    | [] => []
+    | c :: r => if t_id c =? k then lost_events c else go r
+    end.
+
+Lemma lost_events_unf : forall i ch,
+  lost_events (Node i ch) =
+  (match w_fchild i with
+   | Some k => le_go k ch ++ (if w_notify i then [(w_id i, false, k)] else [])
+   | None => []
+   end) ++ (if w_focused i then [(w_id i, false, w_id i)] else []).
+Proof. reflexivity. Qed.
+
+Lemma focus_lost_events : forall t, snd (focus_lost t) = lost_events t.
+Proof.
+  induction t as [i ch IH] using wtree_ind'.
+  rewrite focus_lost_eq, lost_events_unf.
+  assert (Hgo : forall k, snd (fl_go k ch) = le_go k ch).
+  { intro k. induction IH as [|c r Hc Hr IHr]; [reflexivity|].
+    cbn [fl_go le_go]. destruct (t_id c =? k) eqn:Ek.
+    - destruct (focus_lost c) as [c' e]. cbn [snd] in *. exact Hc.
+    - fold (fl_go k r). destruct (fl_go k r) as [r' e]. cbn [snd] in *. exact IHr. }
+  destruct (w_fchild i) as [k|].
+  - specialize (Hgo k). destruct (fl_go k ch) as [ch' e]. cbn [snd] in Hgo. subst e.
+    destruct (w_focused i); cbn [snd]; [reflexivity|rewrite app_nil_r; reflexivity].
+  - destruct (w_focused i); reflexivity.
+Qed.
+
+Lemma le_go_find : forall k ch,
+  le_go k ch = match kids_find k ch with Some c => lost_events c | None => [] end.
+Proof.
+  intros k ch. induction ch as [|c r IH]; [reflexivity|].
+  unfold kids_find. cbn [le_go find]. destruct (t_id c =? k); [reflexivity|exact IH].
+Qed.
+
+Lemma focus_lost_agree : forall (D : Z -> Prop) t, (forall y, In y (t_ids t) -> D y) ->
+  agree D t (fst (focus_lost t)).
+Proof.
+  intros D. induction t as [i ch IH] using wtree_ind'. intro Hd.
+  rewrite focus_lost_eq.
+  assert (Hd' : forall c, In c ch -> forall y, In y (t_ids c) -> D y).
+  { intros c Hc y Hy. apply Hd. cbn [t_ids]. right. apply in_flat_map. exists c. split; assumption. }
+  assert (Hgo : forall k, Forall2 (agree D) ch (fst (fl_go k ch))).
+  { intro k. clear Hd. induction IH as [|c r Hc Hr IHr]; [constructor|].
+    cbn [fl_go]. destruct (t_id c =? k) eqn:Ek.
+    - pose proof (Hc (Hd' c (or_introl eq_refl))) as Hc1.
+      destruct (focus_lost c) as [c' e]. cbn [fst] in *. constructor; [exact Hc1|].
+      clear. induction r; constructor; [apply agree_refl|assumption].
+    - fold (fl_go k r).
+      assert (Hr1 : Forall2 (agree D) r (fst (fl_go k r))).
+      { apply IHr. intros c0 Hc0. apply Hd'. right. exact Hc0. }
+      destruct (fl_go k r) as [r' e]. cbn [fst] in *. constructor; [apply agree_refl|exact Hr1]. }
+  assert (Hrefl : Forall2 (agree D) ch ch).
+  { clear. induction ch; constructor; [apply agree_refl|assumption]. }
+  assert (Hself : D (w_id i)) by (apply Hd; left; reflexivity).
+  destruct (w_fchild i) as [k|].
+  - specialize (Hgo k). destruct (fl_go k ch) as [ch' e]. cbn [fst] in Hgo.
+    destruct (w_focused i); cbn [fst]; constructor; try reflexivity; try exact Hgo.
+    intro Hn. exfalso. exact (Hn Hself).
+  - destruct (w_focused i); cbn [fst]; constructor; try reflexivity; try exact Hrefl.
+    intro Hn. exfalso. exact (Hn Hself).
+Qed.
+
+(* --- t_update --- *)
+
+Lemma t_update_agree : forall (D : Z -> Prop) f z, (forall i, w_id (f i) = w_id i) -> D z ->
+  forall t, agree D t (t_update f z t).
+Proof.
+  intros D f z Hf Hz. induction t as [i ch IH] using wtree_ind'.
+  cbn [t_update]. constructor.
+  - destruct (w_id i =? z); [rewrite Hf|]; reflexivity.
+  - intro Hn. destruct (w_id i =? z) eqn:E; [|reflexivity].
+    exfalso. apply Hn. replace (w_id i) with z by lia. exact Hz.
+  - induction IH as [|c r Hc Hr IHr]; cbn [map]; constructor; assumption.
+Qed.
+
+(* --- links that name children --- *)
+
+(* every focused-child link names one of the node's children (no visibility demanded) *)
+Inductive wf_links : wtree -> Prop :=
+| WL_node : forall i ch,
+    (forall k, w_fchild i = Some k -> exists c, In c ch /\ t_id c = k) ->
+    Forall wf_links ch ->
+    wf_links (Node i ch).
+
+Lemma wf_focus_links : forall t, wf_focus t -> wf_links t.
+Proof.
+  induction t as [i ch IH] using wtree_ind'. intro Hwf.
+  apply wf_focus_inv in Hwf. destruct Hwf as [Hl Hch]. constructor.
+  - intros k Hk. destruct (Hl k Hk) as [c [Hin [Hid _]]]. exists c. split; assumption.
+  - rewrite Forall_forall in *. intros c Hc. apply IH; [exact Hc|apply Hch; exact Hc].
+Qed.
+
+Lemma wf_links_subtree : forall s t, subtree s t -> wf_links t -> wf_links s.
+Proof.
+  intros s t Hs. induction Hs as [t|s c t Hin Hs IH]; intro Hwl; [exact Hwl|].
+  apply IH. inversion Hwl as [i ch Hl Hch]; subst. cbn [t_kids] in Hin.
+  rewrite Forall_forall in Hch. apply Hch. exact Hin.
+Qed.
+
+(* --- the chain t_path returns --- *)
+
+Fixpoint uplinked (up : list wtree) : Prop :=
+  match up with
+  | [] => True
+  | a :: rest => match rest with [] => True | b :: _ => In a (t_kids b) end /\ uplinked rest
+  end.
+
+Lemma uplinked_snoc : forall l c x, uplinked (l ++ [c]) -> In c (t_kids x) -> uplinked (l ++ [c; x]).
+Proof.
+  induction l as [|a l IH]; intros c x Hu Hin.
+  - cbn [app uplinked]. repeat split. exact Hin.
+  - cbn [app uplinked] in *. destruct Hu as [Hh Ht]. split; [|apply IH; assumption].
+    destruct l as [|b l']; cbn [app] in *; exact Hh.
+Qed.
+
+Definition tp_go (id : Z) : list wtree -> option (list wtree) :=
+  fix go (l : list wtree) : option (list wtree) :=
+    match l with
+    | [] => None
+    | c :: r => match t_path id c with Some p => Some p | None => go r end
+    end.
+
+Lemma t_path_unf : forall id i ch,
+  t_path id (Node i ch) =
+  if w_id i =? id then Some [Node i ch] else
+  match tp_go id ch with Some p => Some (Node i ch :: p) | None => None end.
+Proof. reflexivity. Qed.
+
+Lemma t_path_spec : forall w t p, t_path w t = Some p ->
+  (exists tl, p = t :: tl) /\ uplinked (rev p) /\ Forall (fun a => subtree a t) p.
+Proof.
+  intros w. induction t as [i ch IH] using wtree_ind'. intros p Hp.
+  rewrite t_path_unf in Hp. destruct (w_id i =? w) eqn:E.
+  - inversion Hp; subst. split; [eexists; reflexivity|]. split; [cbn; auto|].
+    constructor; [constructor|constructor].
+  - destruct (tp_go w ch) as [p'|] eqn:Ego; [|discriminate]. inversion Hp; subst. clear Hp.
+    assert (Hc : exists c, In c ch /\ t_path w c = Some p').
+    { clear IH E. induction ch as [|c r IHr]; [discriminate|].
+      cbn [tp_go] in Ego. destruct (t_path w c) as [q|] eqn:Ec.
+      - inversion Ego; subst. exists c. split; [left; reflexivity|exact Ec].
+      - destruct (IHr Ego) as [c0 [Hin Hc0]]. exists c0. split; [right; exact Hin|exact Hc0]. }
+    destruct Hc as [c [Hin Hpc]]. rewrite Forall_forall in IH.
+    destruct (IH c Hin p' Hpc) as [[tl Htl] [Hup Hall]]. subst p'.
+    split; [eexists; reflexivity|]. split.
+    + cbn [rev]. cbn [rev] in Hup. rewrite <- app_assoc. cbn [app].
+      apply uplinked_snoc; [exact Hup|exact Hin].
+    + constructor; [constructor|].
+      rewrite Forall_forall in *. intros a Ha. eapply sub_kid; [exact Hin|apply Hall; exact Ha].
+Qed.
+
+(* --- filters and counts --- *)
+
+Definition is_out (e : fev) : bool := negb (is_in e).
+
+Lemma filter_out_all_out : forall l, all_out l -> filter is_out l = l /\ filter is_in l = [].
+Proof.
+  induction l as [|e l IH]; intro H; [split; reflexivity|].
+  inversion H as [|x y He Hl]; subst. destruct (IH Hl) as [H1 H2].
+  unfold is_out in *. cbn [filter]. rewrite He. cbn [negb]. rewrite H1, H2. split; reflexivity.
+Qed.
+
+Lemma filter_out_all_in : forall l, all_in l -> filter is_out l = [] /\ filter is_in l = l.
+Proof.
+  induction l as [|e l IH]; intro H; [split; reflexivity|].
+  inversion H as [|x y He Hl]; subst. destruct (IH Hl) as [H1 H2].
+  unfold is_out in *. cbn [filter]. rewrite He. cbn [negb]. rewrite H1, H2. split; reflexivity.
+Qed.
+
+Lemma fev_count_app : forall e l1 l2, fev_count e (l1 ++ l2) = (fev_count e l1 + fev_count e l2)%nat.
+Proof. intros e l1 l2. unfold fev_count. rewrite filter_app, app_length. reflexivity. Qed.
+
+Lemma fev_same_count : forall l1 l2, (forall e, fev_count e l1 = fev_count e l2) -> fev_same l1 l2 = true.
+Proof.
+  intros l1 l2 H. unfold fev_same. apply forallb_forall. intros e _. rewrite H. apply Nat.eqb_refl.
+Qed.
+
+(* --- one step of _focus_gained against the original tree --- *)
+
+Definition dirty (prev : option wtree) : Z -> Prop :=
+  fun z => match prev with Some n => In z (t_ids n) | None => False end.
+
+Definition prev_in (prev : option wtree) (ch : list wtree) : Prop :=
+  match prev with Some n => In n ch | None => True end.
+
+Lemma dirty_grow : forall prev i ch, prev_in prev ch ->
+  forall z, dirty prev z -> dirty (Some (Node i ch)) z.
+Proof.
+  intros prev i ch Hp z Hz. destruct prev as [n|]; [|inversion Hz].
+  cbn [dirty prev_in] in *. cbn [t_ids]. right. apply in_flat_map. exists n. split; assumption.
+Qed.
+
+Lemma fg_step_find : forall T T' i ch prev,
+  NoDup (t_ids T) -> subtree (Node i ch) T -> prev_in prev ch -> agree (dirty prev) T T' ->
+  exists ch', t_find (w_id i) T' = Some (Node i ch').
+Proof.
+  intros T T' i ch prev Hnd Hsub Hp Hag.
+  pose proof (t_find_subtree _ _ Hsub Hnd) as Hf. unfold t_id in Hf. cbn [t_info] in Hf.
+  destruct (agree_find _ _ _ _ _ Hag Hf) as [a' [Hf' Ha']].
+  inversion Ha' as [i0 i' ch0 ch' Hid Hinfo Hkids]; subst.
+  assert (Hclean : ~ dirty prev (w_id i)).
+  { destruct prev as [n|]; [|intro H; exact H]. cbn [dirty prev_in] in *.
+    pose proof (subtree_nodup _ _ Hsub Hnd) as Hnda. apply node_nodup in Hnda.
+    destruct Hnda as [Hni _]. intro Hin. apply Hni. apply in_flat_map. exists n. split; assumption. }
+  pose proof (Hinfo Hclean) as He. rewrite <- He in Hf'. exists ch'. exact Hf'.
+Qed.
+
+Lemma fg_step_lost : forall T T' i ch prev fc,
+  NoDup (t_ids T) -> wf_links T -> subtree (Node i ch) T -> prev_in prev ch ->
+  agree (dirty prev) T T' -> w_fchild i = Some fc ->
+  (match option_map t_id prev with Some c => negb (fc =? c) | None => true end) = true ->
+  exists x, kids_find fc ch = Some x /\
+            snd (t_at focus_lost fc T') = lost_events x /\
+            agree (dirty (Some (Node i ch))) T (fst (t_at focus_lost fc T')).
+Proof.
+  intros T T' i ch prev fc Hnd Hwl Hsub Hp Hag Hfc Hcond.
+  pose proof (subtree_nodup _ _ Hsub Hnd) as Hnda. apply node_nodup in Hnda.
+  destruct Hnda as [Hni Hndch].
+  pose proof (wf_links_subtree _ _ Hsub Hwl) as Hwla.
+  inversion Hwla as [i0 ch0 Hl Hch]; subst.
+  destruct (Hl fc Hfc) as [x [Hxin Hxid]]. exists x.
+  split; [apply kids_find_in; assumption|].
+  assert (Hxsub : subtree x T).
+  { eapply subtree_trans; [|exact Hsub]. eapply sub_kid; [exact Hxin|constructor]. }
+  pose proof (t_find_subtree _ _ Hxsub Hnd) as Hfx. rewrite Hxid in Hfx.
+  destruct (agree_find _ _ _ _ _ Hag Hfx) as [x' [Hfx' Hagx]].
+  assert (Hxx : x = x').
+  { eapply agree_clean; [exact Hagx|]. intros z Hz Hd.
+    destruct prev as [n|]; [|exact Hd]. cbn [dirty prev_in option_map] in *.
+    assert (Hnx : n = x) by (eapply kids_disjoint; eassumption).
+    subst n. lia. }
+  subst x'.
+  assert (Hnd' : NoDup (t_ids T')) by (rewrite <- (agree_ids _ _ _ Hag); exact Hnd).
+  split.
+  - rewrite (t_at_events focus_lost fc T' x Hnd' Hfx'). apply focus_lost_events.
+  - eapply agree_trans.
+    + eapply agree_mono; [|exact Hag]. apply dirty_grow. exact Hp.
+    + apply t_at_agree.
+      * intros s _ Hs. apply focus_lost_agree. exact Hs.
+      * intros s Hs Hsid y Hy.
+        pose proof (t_find_subtree _ _ Hs Hnd') as Hfs. rewrite Hsid, Hfx' in Hfs.
+        inversion Hfs; subst s. cbn [dirty t_ids]. right.
+        apply in_flat_map. exists x. split; assumption.
+Qed.
+
+(* --- the specification, one level at a time --- *)
+
+Definition spec_outsA (a : wtree) (child : option Z) : list fev :=
+  let i := t_info a in
+  match w_fchild i with
+  | Some x =>
+    if (match child with Some c => c =? x | None => false end) then []
+    else (match kids_find x (t_kids a) with Some c => lost_events c | None => [] end)
+         ++ (if w_notify i then [(w_id i, false, x)] else [])
+  | None => []
+  end.
+
+Definition spec_outsB (a : wtree) (child : option Z) : list fev :=
+  let i := t_info a in
+  match child with
+  | Some _ => if w_focused i then [(w_id i, false, w_id i)] else []
+  | None => []
+  end.
+
+Definition spec_ins (a : wtree) (child : option Z) : list fev :=
+  let i := t_info a in
+  match child with
+  | None => [(w_id i, true, w_id i)]
+  | Some c => if w_notify i then [(w_id i, true, c)] else []
+  end.
+
+Lemma focus_walk_spec_unf : forall a rest child,
+  focus_walk_spec (a :: rest) child =
+  let '(o, n) :=
+    match rest with
+    | [] => ([], [])
+    | _ :: _ => if w_vis (t_info a) then focus_walk_spec rest (Some (t_id a)) else ([], [])
+    end in
+  ((spec_outsA a child ++ spec_outsB a child) ++ o, spec_ins a child ++ n).
+Proof. reflexivity. Qed.
+
+Lemma lost_events_all_out : forall t, all_out (lost_events t).
+Proof. intro t. rewrite <- focus_lost_events. apply focus_lost_all_out. Qed.
+
+Lemma spec_outsA_all_out : forall a child, all_out (spec_outsA a child).
+Proof.
+  intros a child. unfold spec_outsA. cbn zeta.
+  destruct (w_fchild (t_info a)) as [x|]; [|constructor].
+  destruct (match child with Some c => c =? x | None => false end); [constructor|].
+  apply all_out_app.
+  - destruct (kids_find x (t_kids a)); [apply lost_events_all_out|constructor].
+  - destruct (w_notify (t_info a)); repeat constructor.
+Qed.
+
+Lemma spec_outsB_all_out : forall a child, all_out (spec_outsB a child).
+Proof.
+  intros a child. unfold spec_outsB. cbn zeta. destruct child; [|constructor].
+  destruct (w_focused (t_info a)); repeat constructor.
+Qed.
+
+Lemma spec_ins_all_in : forall a child, all_in (spec_ins a child).
+Proof.
+  intros a child. unfold spec_ins. cbn zeta. destruct child; [|repeat constructor].
+  destruct (w_notify (t_info a)); repeat constructor.
+Qed.
+
+(* --- the model's events against the specification's, for every chain suffix --- *)
+
+Lemma fg_events : forall T, NoDup (t_ids T) -> wf_links T ->
+  forall up prev T' T'' evs rs,
+  Forall (fun a => subtree a T) up -> uplinked up ->
+  match up with a :: _ => prev_in prev (t_kids a) | [] => True end ->
+  agree (dirty prev) T T' ->
+  focus_gained no_defects (map t_id up) (option_map t_id prev) T' = (T'', evs, rs) ->
+  filter is_out evs = fst (focus_walk_spec up (option_map t_id prev)) /\
+  forall e, fev_count e (filter is_in evs) =
+            fev_count e (snd (focus_walk_spec up (option_map t_id prev))).
+Proof.
+  intros T Hnd Hwl. induction up as [|a rest IH]; intros prev T' T'' evs rs Hall Hup Hprev Hag Hfg.
+  - cbn [map focus_gained] in Hfg. inversion Hfg; subst. cbn. split; reflexivity.
+  - destruct a as [i ch]. cbn [t_kids] in Hprev.
+    inversion Hall as [|x0 l0 Hsub Hall']; subst.
+    destruct (fg_step_find T T' i ch prev Hnd Hsub Hprev Hag) as [ch' Hfind].
+    cbn [map focus_gained] in Hfg. change (t_id (Node i ch)) with (w_id i) in Hfg.
+    rewrite Hfind in Hfg. cbn [t_info] in Hfg.
+    set (child := option_map t_id prev) in *.
+    (* ev1 *)
+    match type of Hfg with (match ?X with _ => _ end) = _ => destruct X as [tree1 ev1] eqn:E1 end.
+    assert (H1 : ev1 = spec_outsA (Node i ch) child /\ agree (dirty (Some (Node i ch))) T tree1).
+    { unfold spec_outsA. cbn [t_info t_kids]. cbn zeta.
+      destruct (w_fchild i) as [fc|] eqn:Efc.
+      - match type of E1 with (if ?c then _ else _) = _ => destruct c eqn:Econd end.
+        + destruct (fg_step_lost T T' i ch prev fc Hnd Hwl Hsub Hprev Hag Efc Econd) as [x [Hkf [Hev Hag1]]].
+          destruct (t_at focus_lost fc T') as [tr e] eqn:Eta. cbn [fst snd] in *.
+          inversion E1; subst tree1 ev1. split; [|exact Hag1].
+          rewrite Hkf, Hev. cbn [negb d_notify_noout no_defects]. rewrite andb_true_r.
+          destruct child as [c|]; [|reflexivity].
+          replace (c =? fc) with false by lia. reflexivity.
+        + inversion E1; subst tree1 ev1. split.
+          * destruct child as [c|]; [|cbn in Econd; discriminate].
+            replace (c =? fc) with true by lia. reflexivity.
+          * eapply agree_mono; [|exact Hag]. apply dirty_grow. exact Hprev.
+      - inversion E1; subst tree1 ev1. split; [reflexivity|].
+        eapply agree_mono; [|exact Hag]. apply dirty_grow. exact Hprev. }
+    destruct H1 as [Hev1 Hag1].
+    (* ev1b *)
+    match type of Hfg with (match ?X with _ => _ end) = _ => destruct X as [tree1b ev1b] eqn:E1b end.
+    assert (H1b : ev1b = spec_outsB (Node i ch) child /\ agree (dirty (Some (Node i ch))) T tree1b).
+    { unfold spec_outsB. cbn [t_info]. cbn zeta.
+      destruct child as [c|].
+      - destruct (w_focused i) eqn:Ef; cbn [andb negb d_focus_nolost no_defects] in E1b;
+          inversion E1b; subst tree1b ev1b; (split; [reflexivity|]); [|exact Hag1].
+        eapply agree_trans; [exact Hag1|]. apply t_update_agree; [reflexivity|].
+        cbn [dirty t_ids]. left. reflexivity.
+      - inversion E1b; subst tree1b ev1b. split; [reflexivity|exact Hag1]. }
+    destruct H1b as [Hev1b Hag1b].
+    (* the recursion *)
+    rewrite focus_walk_spec_unf. change (t_id (Node i ch)) with (w_id i). cbn [t_info].
+    match type of Hfg with (match ?X with _ => _ end) = _ => destruct X as [[tree2 ev2] rs2] eqn:E2 end.
+    set (R := match rest with
+              | [] => ([], [])
+              | _ :: _ => if w_vis i then focus_walk_spec rest (Some (w_id i)) else ([], [])
+              end).
+    assert (H2 : filter is_out ev2 = fst R /\
+                 forall e, fev_count e (filter is_in ev2) = fev_count e (snd R)).
+    { unfold R. destruct rest as [|b r].
+      - cbn [map] in E2. inversion E2; subst. split; reflexivity.
+      - cbn [map] in E2. destruct (w_vis i) eqn:Ev.
+        + cbn [uplinked] in Hup. destruct Hup as [Hin Hup'].
+          apply (IH (Some (Node i ch)) tree1b tree2 ev2 rs2 Hall' Hup'); [exact Hin|exact Hag1b|exact E2].
+        + inversion E2; subst. split; reflexivity. }
+    destruct H2 as [Hout2 Hin2].
+    inversion Hfg; subst evs. clear Hfg.
+    destruct R as [o n]. cbn [fst snd] in *.
+    pose proof (filter_out_all_out _ (spec_outsA_all_out (Node i ch) child)) as [HA1 HA2].
+    pose proof (filter_out_all_out _ (spec_outsB_all_out (Node i ch) child)) as [HB1 HB2].
+    pose proof (filter_out_all_in _ (spec_ins_all_in (Node i ch) child)) as [HI1 HI2].
+    assert (Hev3 : match child with
+                   | Some c => if w_notify i then [(w_id i, true, c)] else []
+                   | None => [(w_id i, true, w_id i)]
+                   end = spec_ins (Node i ch) child).
+    { unfold spec_ins. cbn [t_info]. destruct child; reflexivity. }
+    rewrite Hev3. subst ev1 ev1b.
+    rewrite !filter_app. unfold fev in *. rewrite HA1, HA2, HB1, HB2, HI1, HI2, Hout2.
+    split.
+    + rewrite app_nil_r, app_assoc. reflexivity.
+    + intro e. cbn [app]. rewrite !fev_count_app, Hin2. lia.
+Qed.
+
+(* --- the theorem --- *)
+
+(* C15_focus_events as asked for (hypothesis ids_unique only) is FALSE: if a focused-child
+   link names a window that is not a child of the node but exists elsewhere in the tree, the
+   model (like the C: it follows the pointer) unfocuses that window and sends OUT events,
+   while [focus_walk_spec] looks the link up among the node's children and demands nothing. *)
+Definition tree_badlink : wtree :=
+  Node (mkW 0 (mkRect 0 0 10 20) true false false false (Some 2) 0 0 1 true (-1))
+    [ Node (mkW 1 (mkRect 1 1 6 10) true false false false None 0 0 1 true (-1))
+        [ Node (mkW 2 (mkRect 1 1 3 4) true false false true None 0 0 1 true (-1)) [] ] ].
+
+Example C15_focus_events_needs_links :
+  ids_unique tree_badlink /\
+  c15_focus_checkb tree_badlink 0
+    (snd (win_take_focus no_defects (set_tree (root_new 10 20) tree_badlink) 0)) = false.
+Proof.
+  split.
+  - unfold ids_unique. cbn. repeat constructor; cbn; intuition discriminate.
+  - vm_compute. reflexivity.
+Qed.
+
+(* With the extra hypothesis that every focused-child link names a child: all trees. *)
+Theorem C15_focus_events : forall st w st' evs,
+  ids_unique (r_tree st) -> wf_links (r_tree st) ->
+  win_take_focus no_defects st w = (st', evs) ->
+  c15_focus_checkb (r_tree st) w evs = true.
+Proof.
+  intros st w st' evs Hu Hwl Htf. unfold ids_unique in Hu.
+  unfold win_take_focus in Htf. unfold c15_focus_checkb, focus_spec.
+  destruct (t_chain w (r_tree st)) as [up|] eqn:Echain.
+  - destruct (focus_gained no_defects (map t_id up) None (r_tree st)) as [[tr ev] rs] eqn:Efg.
+    inversion Htf; subst evs. clear Htf.
+    unfold t_chain in Echain. destruct (t_path w (r_tree st)) as [p|] eqn:Ep; [|discriminate].
+    inversion Echain; subst up. clear Echain.
+    destruct (t_path_spec _ _ _ Ep) as [_ [Hup Hall]].
+    assert (Hall' : Forall (fun a => subtree a (r_tree st)) (rev p)).
+    { rewrite Forall_forall in *. intros a Ha. apply Hall. apply in_rev. exact Ha. }
+    pose proof (fg_events (r_tree st) Hu Hwl (rev p) None (r_tree st) tr ev rs Hall' Hup) as Hev.
+    cbn [option_map] in Hev.
+    assert (Hprev : match rev p with a :: _ => prev_in None (t_kids a) | [] => True end).
+    { destruct (rev p); exact I. }
+    destruct (Hev Hprev (agree_refl _ _) Efg) as [Hout Hin].
+    destruct (focus_walk_spec (rev p) None) as [outs ins]. cbn [fst snd] in *.
+    rewrite (C15_focus_order _ _ _ _ _ _ _ Efg). cbn [andb].
+    apply andb_true_iff. split.
+    + change (fun e => negb (is_in e)) with is_out. rewrite Hout.
+      apply fev_same_count. reflexivity.
+    + apply fev_same_count. exact Hin.
+  - inversion Htf; subst. reflexivity.
+Qed.
+
+Corollary C15_focus_events_wf : forall st w st' evs,
+  ids_unique (r_tree st) -> wf_focus (r_tree st) ->
+  win_take_focus no_defects st w = (st', evs) ->
+  c15_focus_checkb (r_tree st) w evs = true.
+Proof.
+  intros st w st' evs Hu Hwf. apply C15_focus_events; [exact Hu|apply wf_focus_links; exact Hwf].
+Qed.
